@@ -169,7 +169,7 @@ def evaluate(case) -> Verdict:
     if case["kind"] == "macro_seq":
         # several calls of one macro in one render: each binds its own arguments, nothing carries over
         src, data = _macro_seq_src(case)
-        o = oc.outcome_of(lambda: env.from_string(src).render(**data))
+        o = oc.render(case, lambda: env.from_string(src), **data)
         if o[0] != "ok":
             v.fail(f"macro-seq:raises:{o[1]}", f"{src} -> {oc.short(o)}")
         else:
@@ -189,7 +189,7 @@ def evaluate(case) -> Verdict:
     if case["kind"] == "macro":
         src, data = _macro_case_src(case)
         want = _macro_expected(case)
-        o = oc.outcome_of(lambda: env.from_string(src).render(**data))
+        o = oc.render(case, lambda: env.from_string(src), **data)
         if o[0] != "ok":
             v.fail(f"macro:raises:{o[1]}", f"{src} -> {oc.short(o)}")
         elif o[1] not in want:
@@ -213,7 +213,7 @@ def evaluate(case) -> Verdict:
         src = _with_src(items)
         data = {"a": "ga", "b": "gb"}
         want = _with_expected(items, [], dict(data))
-        o = oc.outcome_of(lambda: env.from_string(src).render(**data))
+        o = oc.render(case, lambda: env.from_string(src), **data)
         if o[0] != "ok":
             v.fail(f"with:raises:{o[1]}", f"{src} -> {oc.short(o)}")
         elif o[1] != want:
